@@ -117,12 +117,16 @@ func (p *Processor) Run(ctx context.Context) error {
 
 				state, err := p.store.LoadOffset(ctx, seg.Topic, seg.Partition)
 				if err != nil {
-					continue
+					// Stop this partition for this cycle: a later segment must not
+					// commit a checkpoint past the records of this one.
+					break
 				}
 
 				batches, err := p.decode.Decode(ctx, seg.SegmentKey, seg.IndexKey)
 				if err != nil {
-					continue
+					// Stop this partition for this cycle: a later segment must not
+					// commit a checkpoint past the records of this one.
+					break
 				}
 
 				records := mapBatches(batches)
@@ -141,7 +145,9 @@ func (p *Processor) Run(ctx context.Context) error {
 				err = p.sink.Write(ctx, records)
 				unlock()
 				if err != nil {
-					continue
+					// Stop this partition for this cycle: a later segment must not
+					// commit a checkpoint past the records of this one.
+					break
 				}
 
 				last := records[len(records)-1]
